@@ -285,6 +285,15 @@ def oneof_programs():
     out += variants(p, [[R({'S': ['label:l1'], 'X': ['raise:E1']})], [R({'S': ['label:l1'], 'C1': ['raise:E1']})],
                         [R({'S': ['label:l1']})], [R({'S': ['label:zz']})], [R({'S': ['label:l2'], 'X': ['raise:E1']})]],
                     ['xfails', 'c1fails', 'ok', 'unknown', 'l2_xfails'])
+    # the consumer of a one-of is (an input of) a switch case: the switch sub-pipeline is built after the first
+    # candidate was started; it must not run the started candidate itself (random generator, seed 16 / 137)
+    nodes = [N('A'), N('U1', I('p1', 'A')), N('K1', I('p1', 'U1')), N('K2', I('p1', 'A')),
+             N('M', OO('p1', ['K1', 'K2']), I('p9', 'A')), N('S', I('p1', 'A')), N('C2', I('p1', 'M')),
+             N('W', SW('p1', 'S', [('l1', 'M'), ('l2', 'C2')], name='sw')), N('O', I('p1', 'M'), I('p2', 'W'))]
+    p = P('oneof_consumer_in_switch', nodes, 'A', 'O', tags=['oneof', 'switch', 'shared'])
+    out += variants(p, [[R({'U1': ['raise:E1'], 'S': ['label:l2']})], [R({'U1': ['raise:E1'], 'S': ['label:l1']})],
+                        [R({'K1': ['raise:E1'], 'S': ['label:l2']})], [R({'S': ['label:l2']})]],
+                    ['u1fails_l2', 'u1fails_l1', 'k1fails_l2', 'ok_l2'])
     # retry inside a candidate
     nodes = [N('A'), N('K1', I('p1', 'A'), attempts=2), N('K2', I('p1', 'A')), N('O', OO('p1', ['K1', 'K2']))]
     p = P('oneof_retry', nodes, 'A', 'O', tags=['oneof', 'retry'])
